@@ -461,10 +461,23 @@ func (e *Engine) symbolicOf(st *State, t types.Type, name string, depth int) Val
 	case *types.Map:
 		return e.symbolicMap(st, u, name)
 	case *types.Interface:
+		if u.NumMethods() == 0 {
+			// an arbitrary `any` input: opaque value of the JSON sort (see havoc)
+			return VAbs{Kind: "json", ID: e.namedID("json:" + name), Data: st.declare("in."+sanitize(name)+".any", SJson)}
+		}
 		return VUnknown{Typ: t, Note: name, ID: e.namedID("unk:" + name)}
 	case *types.Signature:
 		return VUnknown{Typ: t, Note: name, ID: e.namedID("unk:" + name)}
 	case *types.Slice:
+		if b, ok := u.Elem().Underlying().(*types.Basic); ok && b.Kind() == types.String {
+			n := "in." + sanitize(name)
+			arr := st.declare(n+".arr", SStrSeq)
+			ln := st.declare(n+".len", SInt)
+			nilT := st.declare(n+".isnil", SBool)
+			st.assume(Ge(ln, IntLit(0)))
+			st.assume(Implies(nilT, Eq(ln, IntLit(0))))
+			return VAbs{Kind: "strslice", ID: e.namedID("strs:" + name), Data: &StrSlice{Arr: arr, Len: ln, Nil: nilT}}
+		}
 		return VUnknown{Typ: t, Note: name, ID: e.namedID("unk:" + name)}
 	case *types.Chan:
 		// a channel input may be nil: symbolic flag, deterministic identity per access path
